@@ -9,7 +9,7 @@ from ..core import Violation
 ID = "C09"
 LEVEL = "exploration"
 RULE = ("2 operands (k = 2..4 for the list form) drawing subsets and orders "
-        "of a <= 6-ID universe per axis (disjoint, nested, partial, "
+        "of an 8-ID universe (IDs of unequal length) per axis (disjoint, nested, partial, "
         "identical, permuted) x 4 union/intersection modes x metadata on "
         "neither/either/both x metadata function {default, dict-union, "
         "prefer-other, both None (union/union only)} x histories; oracle = "
@@ -24,8 +24,10 @@ ASSUMPTIONS = ["ID order of the result is not part of the property (sets are "
                "compared)", "receivers carry, per axis, either no metadata "
                "or a non-empty mapping on every ID"]
 
-UNI_O = ["O%d" % i for i in range(6)]
-UNI_S = ["S%d" % i for i in range(6)]
+# IDs of unequal length: '<U' arrays sized after one operand must not clip
+# the other's
+UNI_O = ["O%d" % i for i in range(6)] + ["O10", "O_longer observation/7"]
+UNI_S = ["S%d" % i for i in range(6)] + ["S10", "S_longer sample.id-7"]
 MODES = st.sampled_from(["union", "intersection"])
 MDF = ["default", "dict_union", "prefer_other", "none"]
 
@@ -134,7 +136,13 @@ def check(case, rec):
         raise Violation("empty-intersection-not-refused", "merge(%r/%r) of "
                         "%r and %r did not raise TableException" %
                         (smode, omode, snaps[0], snaps[1]))
+    held = list(other) if case["form"] == "list" else None
     r = a.merge(other, **kw)
+    if held is not None and (len(held) != len(other) or any(
+            x is not y for x, y in zip(held, other))):
+        raise Violation("operand-list-modified", "merge changed the list of "
+                        "tables it was given: %d -> %d entries" %
+                        (len(held), len(other)))
     got = observe.snapshot(r)
     observe.check_lookups(r, got, "merge result")
     # operands are untouched
